@@ -10,7 +10,11 @@ import (
 	"os"
 	"strings"
 
+	"bytes"
+	"encoding/binary"
+
 	"wa-lang.org/wa/internal/loader/buildtag"
+	"wa-lang.org/wa/internal/wasm/leb128"
 )
 
 func unescape(line string) (string, bool) {
@@ -168,6 +172,145 @@ func buildtagMain(path string) {
 	enc.Encode(map[string]interface{}{"done": true, "n": n, "bad": bad, "accepted": accepted, "drift": drift})
 }
 
+// ---------------------------------------------------------------- C19
+
+type lebCase struct {
+	Mode   string `json:"mode"`
+	W      int    `json:"w"`
+	Signed bool   `json:"signed"`
+	V      []int  `json:"v"`
+	Bytes  []int  `json:"bytes"`
+	Res    struct {
+		Err string `json:"err"`
+		V   []int  `json:"v"`
+		N   int    `json:"n"`
+	} `json:"res"`
+}
+
+func le64(v []int) uint64 {
+	var b [8]byte
+	for i := range b {
+		if i < len(v) {
+			b[i] = byte(v[i])
+		}
+	}
+	return binary.LittleEndian.Uint64(b[:])
+}
+
+func toB(a []int) []byte {
+	b := make([]byte, len(a))
+	for i, v := range a {
+		b[i] = byte(v)
+	}
+	return b
+}
+
+type decOut struct {
+	v   uint64
+	n   uint64
+	err error
+}
+
+// every decoder front end for (w, signed): name -> result (value as the 64-bit two's
+// complement / zero extension the specification uses)
+func decodeAll(w int, signed bool, in []byte) map[string]decOut {
+	out := map[string]decOut{}
+	rd := func() *bytes.Reader { return bytes.NewReader(in) }
+	switch {
+	case w == 32 && !signed:
+		v, n, err := leb128.DecodeUint32(rd())
+		out["DecodeUint32"] = decOut{uint64(v), n, err}
+		v, n, err = leb128.LoadUint32(in)
+		out["LoadUint32"] = decOut{uint64(v), n, err}
+	case w == 32 && signed:
+		v, n, err := leb128.DecodeInt32(rd())
+		out["DecodeInt32"] = decOut{uint64(int64(v)), n, err}
+		v, n, err = leb128.LoadInt32(in)
+		out["LoadInt32"] = decOut{uint64(int64(v)), n, err}
+	case w == 33 && signed:
+		v, n, err := leb128.DecodeInt33AsInt64(rd())
+		out["DecodeInt33AsInt64"] = decOut{uint64(v), n, err}
+	case w == 64 && signed:
+		v, n, err := leb128.DecodeInt64(rd())
+		out["DecodeInt64"] = decOut{uint64(v), n, err}
+		v, n, err = leb128.LoadInt64(in)
+		out["LoadInt64"] = decOut{uint64(v), n, err}
+	}
+	return out
+}
+
+func lebMain(path string) {
+	out := bufio.NewWriter(os.Stdout)
+	defer out.Flush()
+	enc := json.NewEncoder(out)
+	n, bad, execs := 0, 0, 0
+	fail := func(kind string, c *lebCase, fn string, detail string) {
+		bad++
+		if bad <= 60 {
+			enc.Encode(map[string]interface{}{"fail": kind, "fn": fn, "case": c, "detail": detail})
+		}
+	}
+	eachCase(path, func(js []byte) {
+		var c lebCase
+		must(json.Unmarshal(js, &c))
+		n++
+		func() {
+			defer func() {
+				if e := recover(); e != nil {
+					fail("panic", &c, "", fmt.Sprint(e))
+				}
+			}()
+			if c.Mode == "enc" {
+				v := le64(c.V)
+				var got []byte
+				fn := ""
+				switch {
+				case c.W == 32 && !c.Signed:
+					got, fn = leb128.EncodeUint32(uint32(v)), "EncodeUint32"
+				case c.W == 32 && c.Signed:
+					got, fn = leb128.EncodeInt32(int32(uint32(v))), "EncodeInt32"
+				case c.W == 64 && !c.Signed:
+					got, fn = leb128.EncodeUint64(v), "EncodeUint64"
+				case c.W == 64 && c.Signed:
+					got, fn = leb128.EncodeInt64(int64(v)), "EncodeInt64"
+				}
+				if fn != "" {
+					execs++
+					if !bytes.Equal(got, toB(c.Bytes)) {
+						fail("encode", &c, fn, fmt.Sprintf("got % x", got))
+					}
+				}
+				// the specified encoding must decode back to (v, len) on every front end,
+				// also when followed by unrelated bytes
+				for _, tail := range [][]byte{nil, {0x80, 0x01}} {
+					in := append(toB(c.Bytes), tail...)
+					for name, d := range decodeAll(c.W, c.Signed, in) {
+						execs++
+						if d.err != nil {
+							fail("decode-rejects-valid", &c, name, d.err.Error())
+						} else if d.v != v || d.n != uint64(len(c.Bytes)) {
+							fail("decode-value", &c, name, fmt.Sprintf("got %#x n=%d", d.v, d.n))
+						}
+					}
+				}
+				return
+			}
+			for name, d := range decodeAll(c.W, c.Signed, toB(c.Bytes)) {
+				execs++
+				switch {
+				case c.Res.Err != "" && d.err == nil:
+					fail("decode-accepts-"+c.Res.Err, &c, name, fmt.Sprintf("got %#x n=%d", d.v, d.n))
+				case c.Res.Err == "" && d.err != nil:
+					fail("decode-rejects-valid", &c, name, d.err.Error())
+				case c.Res.Err == "" && (d.v != le64(c.Res.V) || d.n != uint64(c.Res.N)):
+					fail("decode-value", &c, name, fmt.Sprintf("got %#x n=%d", d.v, d.n))
+				}
+			}
+		}()
+	})
+	enc.Encode(map[string]interface{}{"done": true, "n": n, "bad": bad, "execs": execs})
+}
+
 func must(err error) {
 	if err != nil {
 		fmt.Fprintln(os.Stderr, "harness error:", err)
@@ -182,6 +325,8 @@ func main() {
 	switch os.Args[1] {
 	case "buildtag":
 		buildtagMain(os.Args[2])
+	case "leb":
+		lebMain(os.Args[2])
 	default:
 		os.Exit(2)
 	}
